@@ -50,7 +50,7 @@ func lognot(s *slip.Scope, arg slip.Object, depth int) (result slip.Object) {
 	case *slip.Bignum:
 		var bi big.Int
 		_ = bi.Not((*big.Int)(ta))
-		result = (*slip.Bignum)(&bi)
+		result = reduceInteger(&bi)
 	default:
 		slip.TypePanic(s, depth, "integer", ta, "integer")
 	}
